@@ -103,7 +103,7 @@ def _gen_from(rnd):
     else:
         t = _gen(rnd, vendor, maxd=rnd.choice([1, 2, 3, 4, 4]))
     wrapper = vendor == "nokia" and rnd.chance(40)
-    return {"vendor": vendor, "tree": plain(t), "indent": rnd.choice(["  ", "  ", " ", "    "]), "nokia_wrapper": wrapper}
+    return {"vendor": vendor, "tree": plain(t), "indent": rnd.choice(["  ", "  ", " ", "    ", "\t"]), "nokia_wrapper": wrapper}
 
 
 @st.composite
